@@ -334,13 +334,74 @@ func (i *interpreter) concreteInt(x value, what string) int64 {
 	return asInt64(x)
 }
 
-// concreteLen resolves a length (signed int) to a concrete value.
+// concreteLen resolves a symbolic length (signed int) to a concrete value.
+// Lengths above the harness's allocation limit are reported as an "alloc"
+// violation (the code is about to allocate what untrusted input declared);
+// lengths up to maxFanout are explored exhaustively; larger lengths below the
+// limit are represented by their smallest feasible value only (stated bound).
 func (i *interpreter) concreteLen(x value, what string) int {
-	if t, ok := x.(*Term); ok {
-		v := i.concretize(t, what)
-		return int(sext64(v, t.w))
+	t, ok := x.(*Term)
+	if !ok {
+		return int(asInt64(x))
 	}
-	return int(asInt64(x))
+	ps := i.ps
+	if ps == nil {
+		panic(engineError{"symbolic length outside a path"})
+	}
+	t = ps.simplify(t)
+	if t.isConst() {
+		return int(sext64(t.c, t.w))
+	}
+	tb := i.tb
+	if t.w < 64 {
+		t = tb.Sext(t, 64)
+	}
+	lim := tb.Const(64, uint64(ps.allocLimit))
+	over := tb.Cmp(opUlt, lim, t) // unsigned: negative lengths count as huge
+	if i.decideQuiet(over, "alloc") {
+		// feasible: report once per path, preferring a moderately large witness
+		mod := tb.And(over, tb.Cmp(opUle, t, tb.Const(64, 1<<26)))
+		if i.sol.check(mod) != resSat {
+			mod = over
+		}
+		if !i.knownOnly("alloc", mod) {
+			ps.violation("alloc", fmt.Sprintf("%s: length above the allocation limit %d is feasible", what, ps.allocLimit), i.violLit)
+		}
+		panic(pathAbort{kind: "violation-end", info: "alloc"})
+	}
+	max := uint64(i.sh.opts.maxFanout)
+	small := tb.Cmp(opUle, t, tb.Const(64, max))
+	if i.decide(small) {
+		return int(i.concretize(t, what))
+	}
+	// representative: the smallest feasible length above maxFanout
+	lo, hi := max+1, uint64(ps.allocLimit)
+	if ps.pos < len(ps.prefix) {
+		v := ps.prefix[ps.pos]
+		ps.pos++
+		ps.trace = append(ps.trace, v)
+		ps.assume(tb.Eq(t, tb.Const(64, v)))
+		return int(v)
+	}
+	ps.pos++
+	for lo < hi {
+		mid := lo + (hi-lo)/2
+		if i.sol.check(tb.Cmp(opUle, t, tb.Const(64, mid))) == resSat {
+			hi = mid
+		} else {
+			lo = mid + 1
+		}
+	}
+	ps.trace = append(ps.trace, lo)
+	ps.assume(tb.Eq(t, tb.Const(64, lo)))
+	ps.reprLens++
+	return int(lo)
+}
+
+// decideQuiet is decide for engine-internal checks whose true side ends the path:
+// it forks like decide but is recorded the same way for replay.
+func (i *interpreter) decideQuiet(c *Term, what string) bool {
+	return i.decide(c)
 }
 
 const allocLimitDefault = 1 << 22
